@@ -83,7 +83,10 @@ __gmp_doprnt_integer (const struct doprnt_funs_t *funs,
       || (p->showbase == DOPRNT_SHOWBASE_NONZERO && slash[1] == '0'))
     den_showbaselen = 0;
 
-  if (p->showbase == DOPRNT_SHOWBASE_NONZERO && s[0] == '0')
+  /* no 0x/0X on a zero value, also when precision 0 has removed its digit
+     (C99: "%#.0x" of 0 prints nothing; for o the # still forces one 0) */
+  if (p->showbase == DOPRNT_SHOWBASE_NONZERO
+      && (s[0] == '0' || (s[0] == '\0' && p->base != 8)))
     showbaselen = 0;
 
   /* the influence of p->prec on mpq is currently undefined */
